@@ -92,6 +92,10 @@ class Check:
             ex += ["-coverage", "1"]
         r = tlc.run(module, cfg, workers=workers, timeout=timeout, extra=ex, heap=heap,
                     tag="%s-%s-%d" % (self.prop, os.path.basename(cfg), os.getpid()))
+        if (r["error"] or not r["finished"]) and not r["violated"]:
+            # a TLC process that died (memory pressure on a shared machine) is run once more before it counts
+            r = tlc.run(module, cfg, workers=workers, timeout=timeout, extra=ex, heap=heap,
+                        tag="%s-%s-%d-r" % (self.prop, os.path.basename(cfg), os.getpid()))
         rec = {"module": module, "cfg": cfg, "distinct": r["distinct"], "generated": r["generated"],
                "depth": r["depth"], "wall_s": round(r["wall_s"], 1), "violated": r["violated"]}
         self.models.append(rec)
